@@ -335,7 +335,7 @@ func c10undef(c *h.Ctx, idx, n, pos int, where string, allow bool) {
 }
 
 func c10(c *h.Ctx) {
-	c.Rule = "in-process: 4..10 parallel stages, 2..5 commands each, every command a distinct template over the stage's own variables, under the real scheduler and runner, plain and under the race detector (each stage must execute its own text rendered with its own values); CLI: every non-empty subset of {config variables, --set, task, stage} (15, stage run) and of the first three (7, direct run) defines its own name, values ascending / descending / shuffled; built-ins rendered; argument vectors of 0..5 words from a pool containing target names, a=b, -v, --x, -- after 1..2 targets in two invocation forms; undefined variable at every position of 1..4 commands, in before and in dir, with/without allow_failure. non-trivial = every distinct (name, winner) / argument vector with >=1 word / undefined-variable position"
+	c.Rule = "in-process: 4..10 parallel stages, 2..5 commands each, every command a distinct template over the stage's own variables, under the real scheduler and runner, plain and under the race detector (each stage must execute its own text rendered with its own values); CLI: every non-empty subset of {config variables, --set, task, stage} (15, stage run) and of the first three (7, direct run) defines its own name, values ascending / descending / shuffled; built-ins rendered; one task shared by a chain of 2..4 stages, each stage defining its own subset of the names (what a stage renders is decided by the levels as that stage has them); argument vectors of 0..5 words from a pool containing target names, a=b, -v, --x, -- after 1..2 targets in two invocation forms; undefined variable at every position of 1..4 commands, in before and in dir, with/without allow_failure. non-trivial = every distinct (name, winner) / argument vector with >=1 word / undefined-variable position"
 	c.Assumptions = []string{"the value of Root is not examined, only that it is defined", "argv with `--` before any target is outside the statement"}
 	var jobs []func()
 	idx := 0
@@ -354,6 +354,10 @@ func c10(c *h.Ctx) {
 	for k := 0; k < c.N(120, 3000); k++ {
 		k := k
 		jobs = append(jobs, func() { c10args(c, k, h.NewRand(c.Seed*7919+int64(k), "c10args")) })
+	}
+	for k := 0; k < c.N(6, 120); k++ {
+		k := k
+		jobs = append(jobs, func() { c10shared(c, k, h.NewRand(c.Seed*31337+int64(k), "c10shared")) })
 	}
 	u := 0
 	for n := 1; n <= 4; n++ {
